@@ -215,3 +215,12 @@ package writecache
 //@   callee (*writecache.cache).delete
 //@   pureeffect
 //@   requires [address_was_read_and_handed_to_the_main_storage] has(objs, a0)
+
+// ---- C46 (the write-cache half of a dump): what the iterator hands to its handler is read
+// straight from the cache's own storage - an object that cannot be read or decoded is an error
+// there (reported, or skipped on request), not "object not found", which the iterator takes for
+// a concurrent removal and passes over in silence.
+//@ callrule c46_iterated_bytes_come_from_the_cache_storage in (*cache).Iterate$1
+//@   property C46
+//@   callee dynamic:*
+//@   requires [bytes_read_by_the_storage_itself] resultOf(a1, "(*fstree.FSTree).GetBytes")
